@@ -42,6 +42,7 @@ type World struct {
 	YieldMax   time.Duration // maximal fake-time delay of one yield
 	SitePct    int           // percent of lock sites active in this run
 	yieldOff   bool
+	NoGosched  bool // worlds without busy-waiting code (client library): lock sites are not rescheduling points
 	spin       map[uint64]*spinState
 	parked     map[string]int // node -> goroutines currently parked at a yield point
 	DisabledSites map[string]bool
@@ -141,7 +142,9 @@ func (w *World) yield(pc uintptr) {
 	// workers run on one P without asynchronous preemption, so a busy-wait loop (e.g. the
 	// follower cursor spinning on a closed quorum tracker) must not starve the goroutine
 	// that would end it
-	runtime.Gosched()
+	if !w.NoGosched {
+		runtime.Gosched()
+	}
 	w.yieldMu.Lock()
 	// a goroutine busy-waiting at one simulated instant would freeze the bubble's clock
 	// (time only advances when everything is durably blocked): after many visits within the
